@@ -47,6 +47,7 @@ func (c *Check) slashEntryFuncs(base []*Func) []*Func {
 				continue
 			}
 			nOK, all := 0, true
+			nRefund := 0
 			for _, pa := range c.P.PathsOf(f) {
 				if !pa.OK() {
 					continue
@@ -66,9 +67,13 @@ func (c *Check) slashEntryFuncs(base []*Func) []*Func {
 						all = false
 					}
 				}
+				// a wrapper may settle the failure as a whole (slash and refund) — then on every path
 				if _, r := c.pathHasEffect(f, pa, isFeeRefund); r {
-					all = false
+					nRefund++
 				}
+			}
+			if nRefund != 0 && nRefund != nOK {
+				all = false
 			}
 			if nOK > 0 && all {
 				in[f] = true
@@ -460,9 +465,13 @@ func (c *Check) expiryScanGuard(rule string) {
 			"the expired batch's active markers are scanned whenever the batch is not completed; additional conditions: "+strings.Join(extra, " ∧ "))
 		// scan arguments: the context id and its own BatchCounter
 		if len(b.Call.CI.args) >= 3 {
-			id, cnt := b.Call.CI.args[1], b.Call.CI.args[2]
+			// a wrapper that hands its own parameters on is judged on its caller's arguments
+			la, _ := c.liftCallArgs(b.Caller, b.Call.CI.args)
+			id, cnt := la[1], la[2]
 			okc := strings.HasSuffix(cnt.Op, ".RequestContext.BatchCounter")
-			c.req(okc && id.Op == "", rule, unitConstruct(b.Caller, "marker-scan-args"), b.Call.Pos,
+			// the id is the handler's own parameter, or the very id whose context the counter is read from
+			okid := id.Op == "" || (okc && len(cnt.A) == 1 && cnt.A[0].Contains(id))
+			c.req(okc && okid, rule, unitConstruct(b.Caller, "marker-scan-args"), b.Call.Pos,
 				"scan is restricted to (context id "+shortTerm(id)+", the context's BatchCounter "+shortTerm(cnt)+")")
 		}
 	}
